@@ -313,18 +313,18 @@ Proof. unfold Rltb. destruct (Rlt_dec x y); split; try discriminate; auto; lra. 
 Lemma Reqb_false x y : Reqb x y = false <-> x <> y.
 Proof. unfold Reqb. destruct (Req_EM_T x y); split; try discriminate; auto; congruence. Qed.
 
-Lemma hundred_R : hundred Rops = 100.
-Proof. unfold hundred. cbn [nofnat Rops]. rewrite INR_IZR_INZ. reflexivity. Qed.
-Lemma atol_R : atol Rops = / 100000000.
-Proof. unfold atol. rewrite hundred_R. cbn [n1 ndiv nmul Rops]. field. Qed.
-Lemma rtol_R : rtol Rops = / 100000.
+Lemma pow10_R k : pow10 Rops k = 10 ^ k.
 Proof.
-  unfold rtol. rewrite hundred_R. cbn [n1 ndiv nmul nofnat Rops]. rewrite INR_IZR_INZ.
-  change (IZR (Z.of_nat 10)) with 10. field.
+  induction k as [|k IH]; cbn [pow10 pow]; [reflexivity|]. rewrite IH. cbn [nmul nofnat Rops]. rewrite INR_IZR_INZ.
+  change (IZR (Z.of_nat 10)) with 10. ring.
 Qed.
+Lemma atol_R : atol Rops = / 100000000.
+Proof. unfold atol, declit. rewrite pow10_R. cbn [ndiv nofnat Rops INR]. cbn [pow]. field. Qed.
+Lemma rtol_R : rtol Rops = / 100000.
+Proof. unfold rtol, declit. rewrite pow10_R. cbn [ndiv nofnat Rops INR]. cbn [pow]. field. Qed.
 
 Lemma isclose_R a b : isclose Rops a b = true <-> Rabs (a - b) <= / 100000000 + / 100000 * Rabs b.
-Proof. unfold isclose. rewrite atol_R, rtol_R. cbn [nleb nabs nsub nadd nmul Rops]. apply Rleb_true. Qed.
+Proof. unfold isclose, isclose_with. rewrite atol_R, rtol_R. cbn [nleb nabs nsub nadd nmul Rops]. apply Rleb_true. Qed.
 
 Lemma sym_close_R m : sym_close Rops m = true <->
   forall i j, (i < length m)%nat -> (j < length m)%nat ->
@@ -405,7 +405,7 @@ Section Generic2.
 Context {T : Type} (o : NumOps T).
 
 Lemma student_rows_length df loc nx u : length (student_rows o df loc nx u) = Nat.min (length nx) (length u).
-Proof. unfold student_rows. rewrite map_length. apply combine_length. Qed.
+Proof. unfold student_rows, entry_rows. rewrite map_length. apply combine_length. Qed.
 
 (* X[i, j] = sqrt(df / u[i]) * nx[i, j] + loc[j] *)
 Lemma student_rows_nth df loc nx u n d i :
@@ -416,7 +416,7 @@ Lemma student_rows_nth df loc nx u n d i :
     = nadd o (nmul o (nsqrt o (ndiv o df (nth i u (n0 o)))) (nth j (nth i nx []) (n0 o))) (nth j loc (n0 o)).
 Proof.
   intros Hm Hu Hl Hi. pose proof (is_mat_row _ _ _ i Hm Hi) as Hrow. destruct Hm as [Hn _].
-  unfold student_rows.
+  unfold student_rows, entry_rows, student_entry.
   rewrite (nth_map_in _ _ _ _ ([], n0 o)) by (rewrite combine_length; lia).
   rewrite combine_nth by lia. cbn [fst snd]. split.
   - rewrite map_length, combine_length. lia.
@@ -466,7 +466,7 @@ Proof.
      CMvn (nth 0 (scaled o alpha gstm_gmm_loc_over_alpha) []) (nth 0 (map (matQ o) gstm_gmm_cov) []) ng;
      CMvn (nth 1 (scaled o alpha gstm_gmm_loc_over_alpha) []) (nth 1 (map (matQ o) gstm_gmm_cov) []) ng;
      CMvn (nth 2 (scaled o alpha gstm_gmm_loc_over_alpha) []) (nth 2 (map (matQ o) gstm_gmm_cov) []) ng;
-     CMvn (map (fun _ => n0 o) (gstm_student_loc o alpha)) (matQ o gstm_student_scale) (n - ng);
+     CMvn (repeat (n0 o) (length (gstm_student_loc o alpha))) (matQ o gstm_student_scale) (n - ng);
      CChisq df (n - ng); CPerm n]) by reflexivity.
   rewrite Hcalls in H2. clear Hcalls.
   inversion H2 as [|c0 r0 cs0 rs0 Hr0 H20]; subst. inversion H20 as [|c1 r1 cs1 rs1 Hr1 H21]; subst.
@@ -481,7 +481,7 @@ Proof.
   change (length (nth 0 (scaled o alpha gstm_gmm_loc_over_alpha) [])) with 2 in Hm0.
   change (length (nth 1 (scaled o alpha gstm_gmm_loc_over_alpha) [])) with 2 in Hm1.
   change (length (nth 2 (scaled o alpha gstm_gmm_loc_over_alpha) [])) with 2 in Hm2.
-  change (length (map (fun _ => n0 o) (gstm_student_loc o alpha))) with 2 in Hzx.
+  change (length (repeat (n0 o) (length (gstm_student_loc o alpha)))) with 2 in Hzx.
   exists yg, m0, m1, m2, zx, u, order. fold ng in Hyg. fold ng.
   repeat (split; [first [reflexivity | assumption]|]).
   cbv zeta.
@@ -727,7 +727,7 @@ Ltac req_eq :=
          end.
 Ltac req_unfold :=
   unfold gmm_calls, student_calls, scaled, scaledv, matQ;
-  cbn [g_d g_loc g_scale g_p g_K map combine length hd Nat.eqb app fst snd];
+  cbn [g_d g_loc g_scale g_p g_K map combine length hd Nat.eqb app fst snd repeat];
   rewrite ?ofQ_R; unfold Q2R; cbn [Qnum Qden n0 nmul Rops].
 
 Definition I2 : list (list R) := [[1; 0]; [0; 1]].
@@ -829,7 +829,7 @@ End Generic3.
 (* ================================================================ H. packaged statements, non-vacuity *)
 Theorem student_t_construction {T} (o : NumOps T) (df : T) (loc : list T) (scale nx : list (list T)) (u : list T) (n i : nat) :
   is_mat n (length loc) nx -> length u = n -> i < n ->
-  student_calls o n loc scale df = [CMvn (map (fun _ => n0 o) loc) scale n; CChisq df n] /\
+  student_calls o n loc scale df = [CMvn (repeat (n0 o) (length loc)) scale n; CChisq df n] /\
   student_run o df loc [DMat nx; DVec u] = Some (student_rows o df loc nx u) /\
   length (student_rows o df loc nx u) = n /\
   length (nth i (student_rows o df loc nx u) []) = length loc /\
